@@ -468,6 +468,10 @@ caf_read_header (SF_PRIVATE *psf)
 				{	psf_log_printf (psf, "%M : %D (should be %D)\n", marker, chunk_size, psf->filelength - psf->header.indx - 8) ;
 					psf->datalength = psf->filelength - psf->header.indx - 8 ;
 					}
+				else if (chunk_size < 4)
+				{	psf_log_printf (psf, "%M : %D (should be >= 4)\n", marker, chunk_size) ;
+					return SFE_MALFORMED_FILE ;
+					}
 				else
 				{	psf_log_printf (psf, "%M : %D\n", marker, chunk_size) ;
 					/* Subtract the 4 bytes of the 'edit' field above. */
